@@ -1066,6 +1066,7 @@ THEOREMS = [
     "C06_tuple1_variant_example",
     "C06_nested_default_fill_example",
     "C06_default_exact_partial",
+    "C06_default_exact_structural",
     "C06_regression_examples",
 ]
 CORPUS = os.path.join(vlib.ROOT, "corpus", "C06", "witnesses.json")
